@@ -423,5 +423,5 @@ LEVEL_TEXT = ("Proof: (1) over an abstract environment the gym wrapper's jitted 
               "on opaque tokens with split/PRNGKey as free constructors, follow the documented key schedule (seed, then one split per reset: first half used, second "
               "stored), touch only _key/_state, relay all fields, dm_env's first timestep has no reward/discount, reset(seed=s) = seed(s);reset(), and re-seeding "
               "reproduces every enumerated call sequence.")
-LEVEL_NOTE = ("environment abstract (uninterpreted) / values opaque (parametricity); call sequences enumerated up to length 4; membership in converted gym/dm_env "
+LEVEL_NOTE = ("environment abstract (uninterpreted) / values opaque (parametricity); every call sequence up to length 5 over {reset, re-seed, step->MID, step->LAST/terminated} compared with a model of the documented key schedule (120 / 780 sequences); membership in converted gym/dm_env "
               "spaces only as a bounded stand-in (never counted); gym/dm_env library code trusted.")
